@@ -164,7 +164,7 @@ func TestVerifRealOS(t *testing.T) {
 			if err := client.WriteTo(m, cm, dst); err != nil {
 				continue
 			}
-			if g := expect(m, 700*time.Millisecond); g.ok {
+			if g := expect(m, 2*time.Second); g.ok {
 				return g
 			}
 		}
